@@ -147,10 +147,10 @@ def run():
         shutil.rmtree(d, ignore_errors=True)
 
     # 3b. mutants of the DESIGN are caught by the exhaustive design-level exploration (no code involved)
-    mcprogs = c01.small_programs(3, 4)
+    mcprogs = c01.small_programs(3, 6)
     cfg = os.path.join(wd, "mc.cfg")
     with open(cfg, "w") as f:
-        f.write("SPECIFICATION Spec\nCONSTANT MaxCalls = 4\nVIEW hview\nINVARIANT LookAheadIsInvisible\nINVARIANT SwitchAwayAndBack\n"
+        f.write("SPECIFICATION Spec\nCONSTANT MaxCalls = 4\nVIEW hview\nINVARIANT LookAheadIsInvisible\nINVARIANT MessagesOnce\nINVARIANT SwitchAwayAndBack\n"
                 "INVARIANT OthersUntouched\nINVARIANT SaveLoadIdentity\nINVARIANT ResetIsInitial\nINVARIANT RefusedIsNoOp\nCHECK_DEADLOCK FALSE\n")
 
     def mc(specdir):
@@ -172,6 +172,12 @@ def run():
         ("InkLook.tla", "rewind keeps the look-ahead's visit counts",
          'IF ch = "extended" THEN [m |-> e.snap, snap |-> NoSnap, done |-> TRUE, log |-> log]',
          'IF ch = "extended" THEN [m |-> [e.snap EXCEPT !.cnt = m2.cnt], snap |-> NoSnap, done |-> TRUE, log |-> log]', "LookAheadIsInvisible"),
+        ("InkHost.tla", "the handler is handed the warnings but they stay pending (handed over again at the next continue)",
+         'IF h.handler THEN [m |-> [m1 EXCEPT !.err = "", !.warns = <<>>], res |-> "ok", msgs |-> pending]',
+         'IF h.handler THEN [m |-> [m1 EXCEPT !.err = ""], res |-> "ok", msgs |-> pending]', "MessagesOnce|LookAheadIsInvisible"),
+        ("InkLook.tla", "an error met while looking ahead is kept (the line before it is lost with the rewind that did not happen)",
+         "[m |-> IF e.snap # NoSnap THEN e.snap ELSE m1, snap |-> NoSnap, done |-> TRUE,",
+         "[m |-> m1, snap |-> NoSnap, done |-> TRUE,", "MessagesOnce"),
         ("InkHost.tla", "reset forgets the named flows' removal", "Reset(h) == Ok([h EXCEPT !.m = S!Start, !.cur = DefaultFlow, !.others = <<>>])",
          "Reset(h) == Ok([h EXCEPT !.m = S!Start, !.cur = DefaultFlow])", "ResetIsInitial"),
     ]:
@@ -184,7 +190,7 @@ def run():
             continue
         open(os.path.join(d, fname), "w").write(src.replace(old, new, 1))
         got = mc(d)
-        bad += expect("design mutant caught by TLC (%s): %s" % (inv, what), inv in got, str(sorted(got)))
+        bad += expect("design mutant caught by TLC (%s): %s" % (inv, what), bool(set(inv.split("|")) & got), str(sorted(got)))
         shutil.rmtree(d, ignore_errors=True)
 
     # 4. host-protocol trace
